@@ -144,7 +144,12 @@ func (exec *Executor) execAnyNode(
 func collection(v any) []any {
 	switch v := v.(type) {
 	case map[string]any:
-		return slices.Collect(maps.Values(v)) // Just work with the values
+		// Just work with the values. Collect returns nil for an empty map,
+		// which callers would mistake for a scalar.
+		if vals := slices.Collect(maps.Values(v)); vals != nil {
+			return vals
+		}
+		return []any{}
 	case []any:
 		return v
 	}
